@@ -316,6 +316,73 @@ func runC15(c *Ctx) {
 			c.Emit("c15.holds.splatply", strings.TrimSpace(fmt.Sprintf("%d %s %s", n, c15flatAll(recs, false), ans)), "true")
 		}
 
+		// --- PLY splat export of clouds carrying higher-order harmonics f_rest_0..cnt-1 (SH degree 1, 2, 3: 9, 24, 45
+		// coefficients; also odd counts): every coefficient must survive SplatPly.Write -> ply.ReadMesh ------------------
+		if n > 0 && k%2 == 0 {
+			cnt := []int{9, 24, 45, 3, 10, 44}[(k/2)%6]
+			c.Note(fmt.Sprintf("c15.splatply.f_rest.%d", cnt))
+			withRest := cloud
+			orig := make([]float64, 0, cnt*n)
+			for kk := 0; kk < cnt; kk++ {
+				vals := make([]float64, n)
+				for i := range vals {
+					// tagged per coefficient and splat; some float32-representable, some not
+					vals[i] = float64(kk+1) + float64(i+1)/1024
+					if (kk+i)%3 == 0 {
+						vals[i] += c.Rng.Float64() / 4096
+					}
+				}
+				orig = append(orig, vals...)
+				withRest = withRest.SetFloat1Attribute(fmt.Sprintf("f_rest_%d", kk), vals)
+			}
+			ans := Guard(func() string {
+				pb := &bytes.Buffer{}
+				if err := (ply.SplatPly{Mesh: withRest}).Write(pb); err != nil {
+					return "0 0"
+				}
+				back, err := ply.ReadMesh(bytes.NewReader(pb.Bytes()))
+				if err != nil {
+					return "0 0"
+				}
+				parts := []string{}
+				p := 0
+				for kk := 0; kk < 64; kk++ {
+					name := fmt.Sprintf("f_rest_%d", kk)
+					if !back.HasFloat1Attribute(name) {
+						continue
+					}
+					a := back.Float1Attribute(name)
+					vs := make([]float64, a.Len())
+					for i := range vs {
+						vs[i] = a.At(i)
+					}
+					parts = append(parts, fmt.Sprintf("%d %s", kk, c15FCs(vs...)))
+					p++
+				}
+				return strings.TrimSpace(fmt.Sprintf("%d %d %s", back.AttributeLength(), p, strings.Join(parts, " ")))
+			})
+			c.Emit("c15.holds.splatply_rest", fmt.Sprintf("%d %d %s %s", n, cnt, Fs(orig...), ans), "true")
+			// the five base attributes must survive alongside the harmonics as well
+			ans2 := Guard(func() string {
+				pb := &bytes.Buffer{}
+				if err := (ply.SplatPly{Mesh: withRest}).Write(pb); err != nil {
+					return "write-err"
+				}
+				back, err := ply.ReadMesh(bytes.NewReader(pb.Bytes()))
+				if err != nil {
+					return "read-err"
+				}
+				if !back.HasFloat3Attribute(modeling.PositionAttribute) || !back.HasFloat3Attribute(modeling.ScaleAttribute) ||
+					!back.HasFloat3Attribute(modeling.FDCAttribute) || !back.HasFloat1Attribute(modeling.OpacityAttribute) ||
+					!back.HasFloat4Attribute(modeling.RotationAttribute) {
+					return "missing-attribute"
+				}
+				rb := c15readBack(*back)
+				return fmt.Sprintf("%d %s", len(rb), c15flatAll(rb, false))
+			})
+			c.Emit("c15.holds.splatply", strings.TrimSpace(fmt.Sprintf("%d %s %s", n, c15flatAll(recs, false), ans2)), "true")
+		}
+
 		// --- guards of Write ------------------------------------------------------------------
 		if k%7 == 3 && n >= 3 {
 			tri := c15cloud(recs, modeling.TriangleTopology, "")
